@@ -26,9 +26,10 @@ func runC02(p *Program, r *Result) {
 	read := r.anchor(pkgStream, "Reader", "Read")
 	rc := r.anchor(pkgStream, "Reader", "readChunk")
 	inc := r.anchor(pkgStream, "", "incNonce")
-	set := r.anchor(pkgStream, "", "setLastChunkFlag")
-	niz := r.anchor(pkgStream, "", "nonceIsZero")
-	if read == nil || rc == nil || inc == nil || set == nil || niz == nil {
+	// setLastChunkFlag and nonceIsZero are spliced into their callers by the normal form:
+	// the rules recognise what they do (streamfx.go), not their names
+	niz := p.Func(pkgStream, "", "nonceIsZero")
+	if read == nil || rc == nil || inc == nil {
 		return
 	}
 	rtb := p.TB(read)
@@ -138,6 +139,10 @@ func runC02(p *Program, r *Result) {
 			var lastOpenIdx int = -1
 			ins := pa.Instrs()
 			for i, in := range ins {
+				if p.isFlagSet(in) {
+					seq = append(seq, "flag")
+					continue
+				}
 				c, ok := in.(ssa.CallInstruction)
 				if !ok {
 					continue
@@ -148,8 +153,6 @@ func runC02(p *Program, r *Result) {
 					lastOpenIdx = i
 				case inc.String():
 					seq = append(seq, "inc")
-				case set.String():
-					seq = append(seq, "flag")
 				}
 			}
 			s := strings.Join(seq, ",")
@@ -176,7 +179,7 @@ func runC02(p *Program, r *Result) {
 				if i >= lastOpenIdx {
 					break
 				}
-				if c, ok := in.(ssa.CallInstruction); ok && calleeName(c.Common()) == set.String() {
+				if p.isFlagSet(in) {
 					flagged = true
 				}
 			}
@@ -283,7 +286,7 @@ func runC02(p *Program, r *Result) {
 	}
 
 	// ---- R02.5
-	r.Rule("R02.5", "an empty final chunk is rejected unless it is the only chunk", 2)
+	r.Rule("R02.5", "an empty final chunk is rejected unless it is the only chunk", 1)
 	{
 		found := false
 		for _, ret := range returnsOf(rc) {
@@ -294,8 +297,9 @@ func runC02(p *Program, r *Result) {
 			var core, rest []string
 			for _, a := range facts {
 				s := short(a.String())
+				isZero, isNonceTest := nonceZeroAtom(a)
 				switch {
-				case s == "!stream.nonceIsZero(Field(Recv.nonce))":
+				case isNonceTest && !isZero:
 					core = append(core, "nonce")
 				case strings.HasPrefix(s, "io.ReadFull(") && (strings.HasSuffix(s, ".0 == invoke (cipher.AEAD).Overhead(Field(Recv.a))") || strings.HasSuffix(s, ".0 == 16")):
 					core = append(core, "n")
@@ -322,35 +326,35 @@ func runC02(p *Program, r *Result) {
 		if !found {
 			r.Bad(rc.String(), "empty-final", "", "no error return under exactly (short read, nonce != 0, n == Overhead): an empty final chunk after a full one would be accepted, so a plaintext would have two chunkings")
 		}
-		// nonceIsZero really compares with the zero array
-		got, _, _, err := p.Extract(Site{Pkg: pkgStream, Func: "nonceIsZero", What: "ret:0"})
-		want := specRecipe(r, "stream.nonceIsZero.result")
-		if err != nil {
-			// not a single expression: the element loop form, decided by E10 (every byte must be 0
-			// for the loop to carry on, true only after the whole array was visited)
-			decided := false
-			if ep, _ := p.elemPredicate(niz, func(v ssa.Value) bool { return len(niz.Params) == 1 && v == ssa.Value(niz.Params[0]) }); ep != nil {
-				eq, ok, w := ep.Equals(func(c int64) bool { return c == 0 }, []int64{0})
-				if ok {
-					decided = true
-					trueAfter := true
-					for _, ret := range returnsOf(niz) {
-						if c, isC := ret.Results[0].(*ssa.Const); isC && c.Value.ExactString() == "true" {
-							if !p.completedAt(ep.Loop, ret.Block()) {
+		// a helper that is still called nonceIsZero (not spliced) really compares with the zero array
+		if niz != nil && len(callsTo(rc, niz.String())) > 0 {
+			got, _, _, err := p.Extract(Site{Pkg: pkgStream, Func: "nonceIsZero", What: "ret:0"})
+			want := specRecipe(r, "stream.nonceIsZero.result")
+			if err != nil {
+				decided := false
+				if ep, _ := p.elemPredicate(niz, func(v ssa.Value) bool { return len(niz.Params) == 1 && v == ssa.Value(niz.Params[0]) }); ep != nil {
+					eq, ok, w := ep.Equals(func(c int64) bool { return c == 0 }, []int64{0})
+					if ok {
+						decided = true
+						trueAfter := true
+						for _, ret := range returnsOf(niz) {
+							if c, isC := ret.Results[0].(*ssa.Const); isC && c.Value.ExactString() == "true" {
+								if !p.completedAt(ep.Loop, ret.Block()) {
+									trueAfter = false
+								}
+							} else if !isC {
 								trueAfter = false
 							}
-						} else if !isC {
-							trueAfter = false
 						}
+						r.Check(eq && trueAfter, niz.String(), "recipe", "", "every byte of the nonce is compared with zero", "nonceIsZero does not test every byte for zero (differs at byte value "+itoa(int(w))+")")
 					}
-					r.Check(eq && trueAfter, niz.String(), "recipe", "", "every byte of the nonce is compared with zero", "nonceIsZero does not test every byte for zero (differs at byte value "+itoa(int(w))+")")
 				}
+				if !decided {
+					r.Unk(niz.String(), "recipe", "", err.Error())
+				}
+			} else {
+				r.Check(got == want, niz.String(), "recipe", "", got, "nonceIsZero is "+got+", want "+want)
 			}
-			if !decided {
-				r.Unk(niz.String(), "recipe", "", err.Error())
-			}
-		} else {
-			r.Check(got == want, niz.String(), "recipe", "", got, "nonceIsZero is "+got+", want "+want)
 		}
 	}
 
